@@ -302,3 +302,41 @@ R.contract(
     },
     locals={"seen": "Set[str]", "out": "List[HitD]", "used_tiers": "List[str]", "bucket": "List[HitD]"},
 )
+
+
+# ------------------------------------------------------------------ InMemoryIndex._iter_shards_for_t2
+# A generator: its yields are cut points; ghost records: nself = number of `yield self`, (ylo[j], yhi[j]) = the
+# slice bounds of the j-th yielded _ShardView.  That each view holds exactly self._eps[ylo:yhi] and points back to
+# this index is proved at the yield itself.
+R.untype("Episode")
+R.objtype("MemIndex", {"_eps": "List[Un[Episode]]"}, cls=("clematis/memory/index.py", "InMemoryIndex"))
+WHOLE = "(nself == 1 and len(ylo) == 0)"
+R.contract(
+    "clematis/memory/index.py:InMemoryIndex._iter_shards_for_t2", "C09",
+    types={"self": "MemIndex", "tier": "str", "suggested": "Optional[int]"},
+    ghost={"nself": ("int", "0"), "ylo": ("List[int]", "empty"), "yhi": ("List[int]", "empty")},
+    asserts={
+        "yield:self": ["ghost:nself = nself + 1"],
+        "yield:view": ["seq_eq(view._episodes, self._eps[start:end])", "same_obj(view._parent, self)",
+                       "ghost:ylo.append(start)", "ghost:yhi.append(end)"],
+    },
+    ensures=[
+        ("no-sharding-cases-yield-the-index-itself",
+         "implies(len(self._eps) <= 1 or is_none(suggested) or some(suggested) <= 1, " + WHOLE + ")"),
+        ("either-the-index-itself-once-or-views-only", WHOLE + " or (nself == 0 and len(ylo) >= 1)"),
+        ("views-partition-the-episode-list-contiguously-in-order-no-overlap",
+         "implies(nself == 0, len(yhi) == len(ylo) and ylo[0] == 0 and yhi[len(yhi) - 1] == len(self._eps) and "
+         "forall(j, 0 <= j < len(ylo), ylo[j] < yhi[j]) and forall(j, 1 <= j < len(ylo), ylo[j] == yhi[j - 1]))"),
+        ("index-untouched", "seq_eq(self._eps, old(self._eps))"),
+    ],
+    raises="none",
+    loops={0: {"inv": [
+        "nself == 0 and len(ylo) == _i and len(yhi) == _i and size >= 1 and count == len(self._eps) and count >= 2",
+        "forall(j, 0 <= j < _i, ylo[j] == _iter[j] and ylo[j] < yhi[j])",
+        "forall(j, 1 <= j < _i, ylo[j] == yhi[j - 1])",
+        "implies(_i > 0, yhi[_i - 1] == ite(_iter[_i] < count, _iter[_i], count))",
+        "seq_eq(self._eps, pre_loop(self._eps))",
+    ]}},
+    # chunks = int(suggested) with suggested > 1 already established: the defensive re-test is dead code
+    unreachable_ok=["if chunks <= 1"],
+)
